@@ -1475,7 +1475,12 @@ class DocutilsRenderer(RendererProtocol):
         """Despite the name, this is actually a footnote definition, e.g. `[^a]: ...`"""
         target = token.meta["label"]
 
-        if target in self.document.nameids:
+        if any(
+            target in node["names"] + node["dupnames"]
+            for node in self.document.footnotes + self.document.autofootnotes
+        ):
+            # (only an earlier *footnote* makes this a duplicate definition,
+            # not e.g. a heading that happens to have the label as its name)
             # note we chose to directly omit these footnotes in the parser,
             # rather than let docutils/sphinx handle them, since otherwise you end up with a confusing warning:
             # WARNING: Duplicate explicit target name: "x". [docutils]
